@@ -22,7 +22,8 @@ class Part:
 
     def __init__(self, name: str, harness: Callable[[Any], Any], bounds: Dict[str, Any], budget_s: float = 600.0,
                  split_depth: int = 6, require: Optional[List[str]] = None, functions: Optional[List[str]] = None,
-                 expect_violation: bool = False):
+                 expect_violation: bool = False, real_replay: Optional[Callable[[Dict[str, Any]], Dict[str, Any]]] = None,
+                 canonical: Optional[Callable[[Any], Any]] = None, validate_n: int = 4):
         self.name = name
         self.harness = harness
         self.bounds = bounds
@@ -31,6 +32,9 @@ class Part:
         self.require = require or []  # coverage witnesses that must be non-zero (vacuity guard)
         self.functions = functions or []
         self.expect_violation = expect_violation  # reachability twin: must come back violated
+        self.real_replay = real_replay  # replays a recorded path on the real thread pool / event loop
+        self.canonical = canonical
+        self.validate_n = validate_n
 
 
 def load_known() -> Dict[str, Any]:
@@ -70,6 +74,7 @@ def run_check(pid: str, tier: str, level: str, parts: List[Part], assumptions: L
     known_hits: Dict[str, Any] = {}
     violations = 0
     twins_ok = 0
+    validated = 0
     for part in parts:
         r = engine.explore(part.harness, budget_s=part.budget_s, split_depth=part.split_depth)
         rep: Dict[str, Any] = {
@@ -104,8 +109,27 @@ def run_check(pid: str, tier: str, level: str, parts: List[Part], assumptions: L
             rec["part"] = part.name
             with open(path, "w") as f:
                 json.dump(engine._jsonable(rec), f, indent=1)
-            if rp["reproduced"]:
+            real = None
+            if rp["reproduced"] and part.real_replay is not None:
+                try:
+                    real = part.real_replay(rec)
+                except Exception as e:  # noqa: BLE001
+                    real = {"status": "error", "error": repr(e)}
+                rec["replay_on_real_pool"] = real
+                with open(path, "w") as f:
+                    json.dump(engine._jsonable(rec), f, indent=1)
+            model_tr = part.canonical([tuple(e) for e in rec.get("notes", [])]) if (part.canonical is not None and real is not None) else None
+            faithful = bool(real is not None and real.get("status") == "completed" and model_tr is not None
+                            and real.get("trace", [])[: len(model_tr)] == model_tr)
+            if rp["reproduced"] and faithful:
+                # the schedule ran to completion on the real pool with every monitor satisfied: artefact of the model
+                rep["verdict"] = "counterexample did not reproduce on the real pool"
+                lines.append("HARNESS-ERROR property=%s part=%s counterexample reproduces in the environment model but not on the real thread pool (%s)" % (pid, part.name, rec["msg"]))
+                status = EXIT_HARNESS
+            elif rp["reproduced"]:
                 violations += 1
+                if real is not None:
+                    lines.append("  real thread pool / event loop replay: %s %s" % (real.get("status"), real.get("violation") or real.get("error") or ""))
                 rep["verdict"] = "violation (replay reproduced): %s" % rec["msg"]
                 lines.append("VIOLATION property=%s replay=%s" % (pid, path))
                 lines.append("  %s" % rec["msg"])
@@ -130,6 +154,33 @@ def run_check(pid: str, tier: str, level: str, parts: List[Part], assumptions: L
                 status = max(status, EXIT_HARNESS)
             else:
                 rep["verdict"] = "held on every path (all checks unsat)"
+                if part.real_replay is not None and part.canonical is not None:
+                    # validate the environment model: sampled solver-chosen schedules replayed on the real pool / loop
+                    ok = bad = 0
+                    picks = [s_ for s_ in r.samples if isinstance(s_, dict) and "trace" in s_]
+                    rnd = __import__("random").Random(seed)
+                    rnd.shuffle(picks)
+                    for s_ in picks[: part.validate_n]:
+                        want_tr = part.canonical([tuple(e) for e in s_["trace"]])
+                        good = False
+                        for attempt in range(2):
+                            try:
+                                rr = part.real_replay(s_)
+                            except Exception as e:  # noqa: BLE001
+                                rr = {"status": "error", "trace": [], "error": repr(e)}
+                            if rr.get("status") == "completed" and rr.get("trace") == want_tr:
+                                good = True
+                                break
+                        ok += good
+                        bad += not good
+                        if not good:
+                            rep.setdefault("model_validation_failures", []).append({"sample": s_.get("choices"), "model_trace": want_tr, "real": rr})
+                    rep["traces_validated_on_real_pool"] = ok
+                    validated += ok
+                    if bad:
+                        rep["verdict"] = "environment model disagrees with the real pool on %d sampled schedule(s)" % bad
+                        lines.append("HARNESS-ERROR property=%s part=%s environment model and real thread pool disagree on %d sampled schedule(s)" % (pid, part.name, bad))
+                        status = max(status, EXIT_HARNESS)
         part_reports.append(rep)
     extra_cov: Dict[str, Any] = {}
     if extra is not None:
@@ -160,7 +211,7 @@ def run_check(pid: str, tier: str, level: str, parts: List[Part], assumptions: L
         "exhaustive": status == EXIT_OK,
         "states": max(states, 1),
         "transitions": max(transitions, 1),
-        "traces_validated_against_impl": int(extra_cov.pop("traces_validated_against_impl", 0)),
+        "traces_validated_against_impl": validated + int(extra_cov.pop("traces_validated_against_impl", 0)),
         "programs": max(int(extra_cov.pop("programs", 0)) or paths, 1),
         "disagreements_checked": total.checks,
         "paths_explored": paths,
